@@ -127,6 +127,9 @@ def crash_key(sig):
         if sig.get("caller") == "references.py:apply":
             return "crash:docutils:attributes-on-pending-node"
         return f"crash:replace_self-loses-attributes:{sig.get('caller')}"
+    if (sig["type"] == "KeyError" and sig.get("caller") == "toctree.py:document_toc" and "anchorname" in sig.get("msg", "")) or (sig["type"] == "AttributeError" and sig["inner"] == "html5.py:visit_download_reference" and "dlpath" in sig.get("msg", "")):
+        # Sphinx copies a section title into the page's table of contents; a download reference inside the title is a reference node without 'anchorname' there
+        return "crash:sphinx-html:download-reference-in-heading"
     if sig["type"] == "RecursionError":
         # the innermost frame of a RecursionError is arbitrary: key by the innermost myst_parser frame
         return f"crash:RecursionError:{sig['myst'] or sig['inner']}"
